@@ -48,7 +48,9 @@ func (c *Client) Subscribe(ctx context.Context, params *SubscriptionParameters, 
 	stats.Subscription().Add("Count", 1)
 
 	// start the publish loop if it isn't already running
+	verifPoint("resume.send", "subscribe")
 	c.resumech <- struct{}{}
+	verifPoint("resume.sent", "subscribe")
 
 	sub := &Subscription{
 		SubscriptionID:            res.SubscriptionID,
@@ -104,10 +106,12 @@ func (c *Client) recreateSubscription(ctx context.Context, id uint32) error {
 	if err := sub.recreate_create(ctx); err != nil {
 		return err
 	}
+	verifPoint("recreate.created", id, sub.SubscriptionID)
 
 	if err := c.registerSubscription_NeedsSubMuxLock(sub); err != nil {
 		return err
 	}
+	verifPoint("recreate.registered", id, sub.SubscriptionID)
 
 	return sub.recreate_monitoredItems(ctx)
 }
@@ -254,6 +258,8 @@ func (c *Client) ForgetSubscription(ctx context.Context, id uint32) {
 }
 
 func (c *Client) forgetSubscription_NeedsSubMuxLock(ctx context.Context, id uint32) {
+	verifPoint("forget.locked", id)
+	defer verifPoint("forget.done", id)
 	delete(c.subs, id)
 	c.updatePublishTimeout_NeedsSubMuxLock()
 	stats.Subscription().Add("Count", -1)
@@ -349,19 +355,23 @@ func (c *Client) notifySubscription(ctx context.Context, sub *Subscription, noti
 // pauseSubscriptions suspends the publish loop by signalling the pausech.
 // It has no effect if the publish loop is already paused.
 func (c *Client) pauseSubscriptions(ctx context.Context) {
+	verifPoint("pause.send")
 	select {
 	case <-ctx.Done():
 	case c.pausech <- struct{}{}:
 	}
+	verifPoint("pause.sent")
 }
 
 // resumeSubscriptions restarts the publish loop by signalling the resumech.
 // It has no effect if the publish loop is not paused.
 func (c *Client) resumeSubscriptions(ctx context.Context) {
+	verifPoint("resume.send", "monitor")
 	select {
 	case <-ctx.Done():
 	case c.resumech <- struct{}{}:
 	}
+	verifPoint("resume.sent", "monitor")
 }
 
 // monitorSubscriptions sends publish requests and handles publish responses
@@ -372,16 +382,19 @@ func (c *Client) monitorSubscriptions(ctx context.Context) {
 
 publish:
 	for {
+		verifPoint("publoop.select")
 		select {
 		case <-ctx.Done():
 			dlog.Println("ctx.Done()")
 			return
 
 		case <-c.resumech:
+			verifPoint("publoop.resume.ignored")
 			dlog.Print("resume")
 			// ignore since not paused
 
 		case <-c.pausech:
+			verifPoint("publoop.paused")
 			dlog.Print("pause")
 			for {
 				select {
@@ -390,10 +403,12 @@ publish:
 					return
 
 				case <-c.resumech:
+					verifPoint("publoop.resumed")
 					dlog.Print("pause: resume")
 					continue publish
 
 				case <-c.pausech:
+					verifPoint("publoop.pause.ignored")
 					dlog.Print("pause: pause")
 					// ignore since already paused
 				}
@@ -404,9 +419,12 @@ publish:
 			//
 			// publish() blocks until a PublishResponse
 			// is received or the context is cancelled.
+			verifPoint("publoop.publish")
 			if err := c.publish(ctx); err != nil {
+				verifPoint("publoop.error", err)
 				dlog.Print("error: ", err.Error())
 				c.pauseSubscriptions(ctx)
+				verifPoint("publoop.selfpaused")
 			}
 		}
 	}
@@ -423,6 +441,7 @@ func (c *Client) publish(ctx context.Context) error {
 	// send the next publish request
 	// note that res contains data even if an error was returned
 	res, err := c.sendPublishRequest(ctx)
+	verifPoint("publish.recv", res, err)
 	stats.RecordError(err)
 	switch {
 	case err == io.EOF:
@@ -482,6 +501,7 @@ func (c *Client) publish(ctx context.Context) error {
 		return err
 
 	default:
+		verifPoint("publish.lock")
 		c.subMux.Lock()
 		// handle pending acks for all subscriptions
 		c.handleAcks_NeedsSubMuxLock(res.Results)
@@ -571,6 +591,7 @@ func (c *Client) sendPublishRequest(ctx context.Context) (*ua.PublishResponse, e
 		req.SubscriptionAcknowledgements = []*ua.SubscriptionAcknowledgement{}
 	}
 	c.subMux.RUnlock()
+	verifPoint("publish.send", req.SubscriptionAcknowledgements)
 
 	dlog.Printf("PublishRequest: %s", debug.ToJSON(req))
 	var res *ua.PublishResponse
